@@ -220,6 +220,18 @@ def run(res: Results, idx: Index, tier: str) -> None:
     else:
         res.violation("R-C05c", f"{UI}:{t.node.lineno}", key, "no input_params / io-name collision check raises before the converter call", t.qualname)
 
+    # ---- R-C05d: the optimizer's annotation refresh can land on a value that is (or is re-routed to) a graph output,
+    # so the declared element type / shape of the interface depends on it: the refresh rules of C08 are re-decided here
+    if not getattr(res, "_nested_xref", False):
+        from . import c08
+        res.rule("R-C05d", "annotation refresh in the optimizer keeps declared element types and visits producers first (C08 R-C08c / R-C08d)", floor=5)
+        sub = Results("C08", tier)
+        setattr(sub, "_nested_xref", True)
+        c08.run(sub, idx, tier)
+        for inst in sub.instances:
+            if inst.rule in ("R-C08c", "R-C08d"):
+                res.add("R-C05d", inst.status, inst.site, f"{inst.rule}::{inst.key}", f"[C08 {inst.rule}] {inst.detail}", inst.func)
+
 
 def _descend(body: List[ast.stmt]) -> List[ast.AST]:
     return [x for st in body for x in ast.walk(st)]
